@@ -75,7 +75,7 @@ func plans() map[string]Plan {
 		QuickCap: 300, ThoroughCap: 3000,
 		Assumptions: append([]string{"the instrumentation (ticks, channel/go hooks, ordered map iteration) only adds calls and preserves behaviour; checked on every run by executing the repository's own tests against the instrumented build", "work inside go/types.Eval and the standard library is invisible to the step counter (covered by the free-running pass with its watchdog)", "the free-running pass uses a 2 s grace period for goroutines to finish and a 30-60 s watchdog, both orders of magnitude above the microseconds a call takes"}, baseAssumptions...)}
 	p["C14"] = Plan{Prop: "C14",
-		Quick: []Job{{Name: "interleavings-and-map-orders", Engine: "e7", Inst: true, Args: []string{"-job", "inst"}, Shards: 42},
+		Quick: []Job{{Name: "interleavings-and-map-orders", Engine: "e7", Inst: true, Args: []string{"-job", "inst"}, Shards: 46},
 			{Name: "copy-isolation", Engine: "e7", Args: []string{"-job", "iso"}, Shards: 1},
 			{Name: "race-detector-pass", Engine: "e7", Race: true, Args: []string{"-job", "race"}, Shards: 8}},
 		Thorough: []Job{{Name: "interleavings-and-map-orders", Engine: "e7", Inst: true, Args: []string{"-job", "inst"}, Shards: 46},
